@@ -295,7 +295,8 @@ pub fn arena_regular_chunk() -> usize {
             let fill = arena.remaining();
             if fill > 0 {
                 let zeros = vec![0u8; fill];
-                let _ = arena.read_n(&zeros[..], fill, NonZeroUsize::new(1).unwrap());
+                // (Any number of attempts: an arena may bound individual reads.)
+                let _ = arena.read_n(&zeros[..], fill, NonZeroUsize::MAX);
             }
             arena.ensure_capacity(1);
             let got = arena.remaining();
@@ -369,8 +370,7 @@ fn apply_feed(
             let (script, tail_eof) = script_from(a[3], hard);
             let count = src.len();
             let attempts = attempts_from(a[3] >> 7);
-            let want = ref_read_n(src.len(), &script, tail_eof, count, attempts);
-            let mut reader = SimReader::new(src, script, tail_eof);
+            let mut reader = SimReader::new(src, script.clone(), tail_eof);
             *largest_alloc = (*largest_alloc).max(count);
             let att = NonZeroUsize::new(attempts).unwrap();
             let got: Result<usize, std::io::ErrorKind> = if method == 2 {
@@ -417,6 +417,7 @@ fn apply_feed(
                     stats.add(&format!("fault.{}", name), reader.fired[i]);
                 }
             }
+            let want = ref_read_n_traced(src.len(), &script, tail_eof, count, attempts, &reader.offered);
             log.u64(reader.offered.len() as u64);
             if reader.offered != want.offered {
                 vs.push(V { prop: "C17", inv: "C17.calls", detail: format!("encoder read: reader offered {:?}, reference {:?}", reader.offered, want.offered), at });
@@ -770,8 +771,7 @@ impl Run<'_> {
                         m => {
                             let (script, tail_eof) = script_from(op.a[2], self.hard);
                             let attempts = attempts_from(op.a[2] >> 7);
-                            let want = ref_read_n(piece.len(), &script, tail_eof, len, attempts);
-                            let mut reader = SimReader::new(piece, script, tail_eof);
+                            let mut reader = SimReader::new(piece, script.clone(), tail_eof);
                             let att = NonZeroUsize::new(attempts).unwrap();
                             let got: Result<usize, std::io::ErrorKind> = if m == 2 {
                                 stats.bump("op.decode_anchored");
@@ -814,6 +814,7 @@ impl Run<'_> {
                                     stats.add(&format!("fault.{}", name), reader.fired[k]);
                                 }
                             }
+                            let want = ref_read_n_traced(piece.len(), &script, tail_eof, len, attempts, &reader.offered);
                             if reader.offered != want.offered {
                                 vs.push(V { prop: "C17", inv: "C17.calls", detail: format!("decoder read: reader offered {:?}, reference {:?}", reader.offered, want.offered), at: i });
                             }
@@ -847,6 +848,13 @@ impl Run<'_> {
             if let Err((p, inv, d)) = check_memory(&c, &[wire], "decoder", log) {
                 vs.push(V { prop: p, inv, detail: d, at: i });
             }
+        }
+        if !rejected && pos < wire.len() {
+            // A reader-driven last feed may legitimately come back short (the
+            // property bounds what read_n asks for, it does not promise one
+            // call takes everything): the caller hands over the rest.
+            stats.bump("probe.decoder_tail_completed_by_copy");
+            rejected = dec.decode_copy(&wire[pos..]).is_err();
         }
         let accepted = if rejected {
             // What the decoder emitted before the error stays readable through
@@ -921,6 +929,9 @@ impl Run<'_> {
                 };
                 rej2 = d2.decode_copy(&piece[..n]).is_err();
                 pos2 += n;
+            }
+            if !rej2 && pos2 < wire.len() {
+                rej2 = d2.decode_copy(&wire[pos2..]).is_err();
             }
             let acc2 = !rej2 && match d2.finish() {
                 Ok(iov) => {
